@@ -70,8 +70,10 @@ ASSUMPTIONS = [
     "sanitizer reports whose first stack trace holds no pyunicorn frame are "
     "ignored (numpy / igraph / CPython internals)",
     "Surrogates.test_* with differently shaped original / surrogate arrays "
-    "and ResNetwork.vertex_current_flow_betweenness with a node index "
-    "outside 0..N-1 are treated as inputs that must be rejected with a "
+    "and ResNetwork.vertex_current_flow_betweenness / the "
+    "InteractingNetworks cross clustering and transitivity methods with a "
+    "node index outside 0..N-1 are treated as inputs that must be rejected "
+    "with a "
     "Python exception (separate entry points, separate signatures)",
 ]
 
